@@ -79,13 +79,18 @@ type tcase struct {
 	// BodyLen overrides the batch length: e2e uses the production segment size (10 MB), so 6 MB batches give segments of
 	// exactly two blocks
 	BodyLen int `json:"bodyLen"`
+	// SlackMs: e2e only - how long after its earliest possible time a request may arrive before the run is reported
+	// as not forwarding (liveness bound; generous because shared machines can be 20x slower than idle)
+	SlackMs int `json:"slackMs"`
 	// periodic: seconds a post flagged tick keeps the remote busy (the code's ticker is 10 s)
 	TickSleepMs int `json:"tickSleepMs"`
 	// writer mode
-	R    string `json:"r"`
-	Att  int    `json:"att"`
-	OK   bool   `json:"ok"`
-	WWait int64 `json:"wait"`
+	R     string `json:"r"`
+	Att   int    `json:"att"`
+	OK    bool   `json:"ok"`
+	WWait int64  `json:"wait"`
+
+	slowCall bool
 }
 
 // ---------------------------------------------------------------- the scripted remote + the config store
@@ -533,7 +538,17 @@ func runWriter(c *tcase, env *rt.Env) rt.Result {
 
 // ---------------------------------------------------------------- mode steps
 
+// runSteps: a divergence observed after some SendWrite call ran so long that the code's 10 s in-scan ticker may have
+// fired although the history does not say so is a harness timing problem (overloaded machine), not a violation.
 func runSteps(c *tcase, env *rt.Env) rt.Result {
+	r := runStepsInner(c, env)
+	if !r.OK && r.Kind == "violation" && c.slowCall {
+		return rt.Infra("a SendWrite call took so long that the 10 s in-scan ticker may have fired unscripted; then: " + r.Msg)
+	}
+	return r
+}
+
+func runStepsInner(c *tcase, env *rt.Env) rt.Result {
 	L := bodyLen(env.Seed, c.Conc)
 	if c.SegCap <= 0 {
 		c.SegCap = 2
@@ -627,8 +642,18 @@ func runSteps(c *tcase, env *rt.Env) rt.Result {
 			}
 		case "send":
 			n0 := rm.nwrites()
+			t0 := time.Now()
 			wait, retry := vq.SendWrite()
 			n1 := rm.nwrites()
+			scripted := time.Duration(0)
+			for _, p := range s.Posts {
+				if p.Tick {
+					scripted += rm.tickWait
+				}
+			}
+			if time.Since(t0)-scripted > 8*time.Second {
+				c.slowCall = true
+			}
 			rm.settle(n0, n1)
 			got, extra, enqErr := rm.snapshot(n0, n1)
 			if enqErr != nil {
@@ -780,7 +805,10 @@ func runE2E(c *tcase, env *rt.Env) rt.Result {
 		return qm.EnqueueData(id, bd, 1)
 	}
 	rm.enqueue = enqueue
-	const slack = 20 * time.Second
+	slack := 60 * time.Second
+	if c.SlackMs > 0 {
+		slack = time.Duration(c.SlackMs) * time.Millisecond
+	}
 	evals := 0
 	nposts := 0
 	var lastDone time.Time // when the remote answered the last request
